@@ -40,6 +40,41 @@ use zv::*;
 
 type Trace = Rc<RefCell<Vec<Vec<u64>>>>;
 
+// ---------------------------------------------------------------- budgets
+// Every run is bounded: a server that does not return from one poll (e.g. because it keeps selecting a
+// dead connection) or a case that takes too long stops the run with a panic carrying the reason; main
+// reports it as {"panic":true,"why":..} and the check turns it into a VIOLATION with the case as replay.
+const MAX_ITERATIONS_PER_POLL: u64 = 20_000; // accept is polled once per loop iteration
+const MAX_EOF_READS: u64 = 8; // a correct server reads end-of-stream once per connection
+const MAX_CASE_MILLIS: u128 = 10_000;
+thread_local! {
+    static ITER: std::cell::Cell<u64> = const { std::cell::Cell::new(0) };
+    static START: std::cell::Cell<Option<std::time::Instant>> = const { std::cell::Cell::new(None) };
+}
+fn budget_reset_case() {
+    ITER.with(|i| i.set(0));
+    START.with(|s| s.set(Some(std::time::Instant::now())));
+}
+fn budget_reset_poll() {
+    ITER.with(|i| i.set(0));
+}
+fn budget_tick() {
+    let n = ITER.with(|i| {
+        i.set(i.get() + 1);
+        i.get()
+    });
+    if n > MAX_ITERATIONS_PER_POLL {
+        panic!("BUDGET: Server::run made more than {MAX_ITERATIONS_PER_POLL} loop iterations inside one poll");
+    }
+    if n % 256 == 0 {
+        if let Some(t) = START.with(|s| s.get()) {
+            if t.elapsed().as_millis() > MAX_CASE_MILLIS {
+                panic!("BUDGET: the case ran for more than {MAX_CASE_MILLIS} ms");
+            }
+        }
+    }
+}
+
 // ---------------------------------------------------------------- sockets
 #[derive(Debug, Default)]
 struct SockState {
@@ -47,6 +82,7 @@ struct SockState {
     wcnt: u64,
     wfail: Vec<u64>,
     dropped: bool,
+    eof_reads: u64,
 }
 type SockRef = Rc<RefCell<SockState>>;
 
@@ -78,12 +114,20 @@ impl ReadHalf for SockR {
                 Some(Ev::Pend) => Poll::Pending,
                 Some(Ev::Eof) => {
                     s.evs.push_front(Ev::Eof);
+                    s.eof_reads += 1;
+                    if s.eof_reads > MAX_EOF_READS {
+                        panic!("BUDGET: the server keeps reading a dead connection (end of stream was already reported {MAX_EOF_READS} times)");
+                    }
                     Poll::Ready(Ok(0))
                 }
                 Some(Ev::Fail) => Poll::Ready(Err(zlink_core::Error::SocketRead)),
                 Some(Ev::Data(d)) => {
                     if d.is_empty() {
                         s.evs.push_front(Ev::Data(d));
+                        s.eof_reads += 1;
+                        if s.eof_reads > MAX_EOF_READS {
+                            panic!("BUDGET: the server keeps reading a dead connection (end of stream was already reported {MAX_EOF_READS} times)");
+                        }
                         return Poll::Ready(Ok(0));
                     }
                     let n = d.len().min(buf.len());
@@ -137,13 +181,17 @@ impl Listener for Lst {
     type Socket = Sock;
     fn accept(&mut self) -> impl Future<Output = zlink_core::Result<Connection<Sock>>> {
         let (q, socks, trace) = (self.q.clone(), self.socks.clone(), self.trace.clone());
-        std::future::poll_fn(move |_cx| match q.borrow_mut().pop_front() {
-            None => Poll::Pending,
-            Some(None) => Poll::Ready(Err(zlink_core::Error::SocketRead)),
-            Some(Some(c)) => {
-                let sh = socks.borrow().get(&c).unwrap().clone();
-                trace.borrow_mut().push(vec![1, c]);
-                Poll::Ready(Ok(Connection::new(Sock(c, sh, trace.clone()))))
+        std::future::poll_fn(move |_cx| {
+            budget_tick();
+            let next = q.borrow_mut().pop_front();
+            match next {
+                None => Poll::Pending,
+                Some(None) => Poll::Ready(Err(zlink_core::Error::SocketRead)),
+                Some(Some(c)) => {
+                    let sh = socks.borrow().get(&c).unwrap().clone();
+                    trace.borrow_mut().push(vec![1, c]);
+                    Poll::Ready(Ok(Connection::new(Sock(c, sh, trace.clone()))))
+                }
             }
         })
     }
@@ -305,7 +353,16 @@ impl Service for Svc {
 
 // ---------------------------------------------------------------- oracles
 /// Decoded call as [kind, c, t, v, oneway, more]; for Say, v is the index of the string in `strs`.
+/// Whether the frame decodes, and to which method, is what `Call<M>`'s own deserializer says (the frame
+/// in isolation); the FLAGS are read from the frame as a plain JSON value, independently of
+/// zlink's call/de.rs: the last `"oneway"` / `"more"` member of the object, absent = false.
 fn decode_oracle(seg: &[u8], strs: &mut Vec<String>) -> Value {
+    let flag = |name: &str| -> u64 {
+        serde_json::from_slice::<Value>(seg)
+            .ok()
+            .and_then(|v| v.get(name).and_then(|f| f.as_bool()))
+            .unwrap_or(false) as u64
+    };
     match serde_json::from_slice::<Call<M>>(seg) {
         Ok(call) => {
             let [k, c, t, mut v] = call.method().code();
@@ -318,7 +375,7 @@ fn decode_oracle(seg: &[u8], strs: &mut Vec<String>) -> Value {
                     }
                 };
             }
-            json!([k, c, t, v, call.oneway() as u64, call.more() as u64])
+            json!([k, c, t, v, flag("oneway"), flag("more")])
         }
         Err(_) => Value::Null,
     }
@@ -422,6 +479,7 @@ fn run_case(case: &Value) -> Value {
             "si" => squeue.borrow_mut().push((num(&a[1]), SEv::Item(num(&a[2]), num(&a[3])))),
             "se" => squeue.borrow_mut().push((num(&a[1]), SEv::End)),
             "p" => {
+                budget_reset_poll();
                 if let Some(f) = fut.as_mut() {
                     if let Poll::Ready(_r) = poll_once(f.as_mut()) {
                         exited = true;
@@ -483,10 +541,18 @@ fn main() {
             continue;
         }
         let case: Value = serde_json::from_str(&line).unwrap();
+        budget_reset_case();
         let r = std::panic::catch_unwind(|| run_case(&case));
         let out = match r {
             Ok(v) => v,
-            Err(_) => json!({"id": case["id"], "panic": true}),
+            Err(e) => {
+                let why = e
+                    .downcast_ref::<String>()
+                    .cloned()
+                    .or_else(|| e.downcast_ref::<&str>().map(|x| x.to_string()))
+                    .unwrap_or_default();
+                json!({"id": case["id"], "panic": true, "why": why})
+            }
         };
         writeln!(w, "{}", out).unwrap();
     }
